@@ -99,7 +99,7 @@ class vlan(packet_base):
 
     def hdr (self, payload):
         pcpid  = self.pcp << 13
-        pcpid |= self.cfi << 12
+        pcpid |= (1 if self.cfi else 0) << 12
         pcpid |= self.id
         buf = struct.pack("!HH", pcpid, self.eth_type)
         return buf
